@@ -167,6 +167,7 @@ fn c02_plaintext_wiring() {
     }
     let r = ManuallyDrop::new(tp::parse_tls_plaintext(b));
     let calls = unsafe { SEEN_CALLS };
+    vassert!(class(&r) != Class::Failure, "C02.plaintext.never_returns_Failure");
     match ref_frame(b, 5) {
         Frame::ShortHeader => {
             vassert!(class(&r) == Class::Incomplete, "C02.plaintext.short_header.incomplete");
